@@ -10,7 +10,7 @@ out = {}
 try:
     for pid in pids:
         t = time.time()
-        r = subprocess.run(["/venv/bin/python", "-m", "bpmc.run", pid, "--tier", "quick"], cwd="/verif", capture_output=True, text=True,
+        r = subprocess.run(["/venv/bin/python", "-m", "bpmc.run", pid, "--tier", "quick"], cwd=os.environ.get("VERIF_DIR", "/verif"), capture_output=True, text=True,
                            env=dict(os.environ, VERIF_SEED=os.environ.get("VERIF_SEED", "0")))
         viol = [l for l in r.stdout.splitlines() if l.startswith("VIOLATION")]
         notes = [l for l in r.stdout.splitlines() if l.startswith("  #")]
